@@ -163,33 +163,22 @@ func project(method string, result any) (line string, err error) {
 	case "blockHashAndNumber":
 		o := objOf(result, "result")
 		return fmt.Sprintf("ok %s %x", feltOf(field(o, "block_hash"), "block_hash"), numOf(field(o, "block_number"), "block_number")), nil
-	case "blockTxHashes":
+	case "blockTxHashes", "blockTxs", "blockReceipts":
 		o := objOf(result, "result")
-		var hs []string
-		for i, t := range listOf(field(o, "transactions"), "transactions") {
-			hs = append(hs, feltOf(t, fmt.Sprintf("transactions[%d]", i)))
+		if _, has := o["block_hash"]; !has {
+			// v0.8 `pending`: no hash, no number, no status
+			line := "ok pending " + feltOf(field(o, "parent_hash"), "parent_hash")
+			if n := len(listOf(field(o, "transactions"), "transactions")); n != 0 {
+				line += fmt.Sprintf(" +%dtxs", n)
+			}
+			for _, k := range []string{"block_number", "status", "new_root"} {
+				if _, has := o[k]; has {
+					line += " +" + k
+				}
+			}
+			return line, nil
 		}
-		return "ok " + hdrProj(o) + " " + joinOr(hs), nil
-	case "blockTxs":
-		o := objOf(result, "result")
-		var ts []string
-		for i, t := range listOf(field(o, "transactions"), "transactions") {
-			to := objOf(t, fmt.Sprintf("transactions[%d]", i))
-			ts = append(ts, fmt.Sprintf("%s/%x", feltOf(field(to, "transaction_hash"), "transaction_hash"), txKindOf(to)))
-		}
-		return "ok " + hdrProj(o) + " " + joinOr(ts), nil
-	case "blockReceipts":
-		o := objOf(result, "result")
-		var ts []string
-		for i, t := range listOf(field(o, "transactions"), "transactions") {
-			pair := objOf(t, fmt.Sprintf("transactions[%d]", i))
-			to := objOf(field(pair, "transaction"), "transaction")
-			ro := objOf(field(pair, "receipt"), "receipt")
-			ts = append(ts, fmt.Sprintf("%s/%x/%s/%s", feltOf(field(ro, "transaction_hash"), "transaction_hash"), txKindOf(to),
-				execRev(strOf(field(ro, "execution_status"), "execution_status")),
-				finalityOf(strOf(field(ro, "finality_status"), "finality_status"))))
-		}
-		return "ok " + hdrProj(o) + " " + joinOr(ts), nil
+		return projectBlock(method, o), nil
 	case "txByHash", "txByIdx":
 		o := objOf(result, "result")
 		return fmt.Sprintf("ok %s/%x", feltOf(field(o, "transaction_hash"), "transaction_hash"), txKindOf(o)), nil
@@ -210,12 +199,52 @@ func project(method string, result any) (line string, err error) {
 			execRev(strOf(field(o, "execution_status"), "execution_status"))), nil
 	case "stateUpdate":
 		o := objOf(result, "result")
+		if _, has := o["block_hash"]; !has {
+			line := fmt.Sprintf("ok pending-update %s %s", feltOf(field(o, "old_root"), "old_root"), diffProj(objOf(field(o, "state_diff"), "state_diff")))
+			if _, has := o["new_root"]; has {
+				line += " +new_root"
+			}
+			return line, nil
+		}
 		return fmt.Sprintf("ok %s %s %s %s", feltOf(field(o, "block_hash"), "block_hash"), feltOf(field(o, "new_root"), "new_root"),
 			feltOf(field(o, "old_root"), "old_root"), diffProj(objOf(field(o, "state_diff"), "state_diff"))), nil
 	case "storage", "nonce", "classHashAt":
 		return "ok " + feltOf(result, "result"), nil
+	case "storageLU":
+		o := objOf(result, "result")
+		return fmt.Sprintf("ok %s @%x", feltOf(field(o, "value"), "value"), numOf(field(o, "last_update_block"), "last_update_block")), nil
 	}
 	return "", fmt.Errorf("no projection for %s", method)
+}
+
+// projectBlock renders a confirmed block object.
+func projectBlock(method string, o jobj) string {
+	switch method {
+	case "blockTxHashes":
+		var hs []string
+		for i, t := range listOf(field(o, "transactions"), "transactions") {
+			hs = append(hs, feltOf(t, fmt.Sprintf("transactions[%d]", i)))
+		}
+		return "ok " + hdrProj(o) + " " + joinOr(hs)
+	case "blockTxs":
+		var ts []string
+		for i, t := range listOf(field(o, "transactions"), "transactions") {
+			to := objOf(t, fmt.Sprintf("transactions[%d]", i))
+			ts = append(ts, fmt.Sprintf("%s/%x", feltOf(field(to, "transaction_hash"), "transaction_hash"), txKindOf(to)))
+		}
+		return "ok " + hdrProj(o) + " " + joinOr(ts)
+	default:
+		var ts []string
+		for i, t := range listOf(field(o, "transactions"), "transactions") {
+			pair := objOf(t, fmt.Sprintf("transactions[%d]", i))
+			to := objOf(field(pair, "transaction"), "transaction")
+			ro := objOf(field(pair, "receipt"), "receipt")
+			ts = append(ts, fmt.Sprintf("%s/%x/%s/%s", feltOf(field(ro, "transaction_hash"), "transaction_hash"), txKindOf(to),
+				execRev(strOf(field(ro, "execution_status"), "execution_status")),
+				finalityOf(strOf(field(ro, "finality_status"), "finality_status"))))
+		}
+		return "ok " + hdrProj(o) + " " + joinOr(ts)
+	}
 }
 
 // diffProj renders a state_diff object as the sorted item list of the model.
